@@ -2,7 +2,11 @@
 
 package proto
 
-import "bytes"
+import (
+	"bytes"
+
+	"github.com/google/uuid"
+)
 
 // vLeafSpec describes one column type for the block round-trip harness.
 type vLeafSpec[T any] struct {
@@ -14,9 +18,15 @@ type vLeafSpec[T any] struct {
 	eq   func(a, b T) bool
 	// cast turns the column produced by inference into one `row` understands (nil: not inferable)
 	auto func(c Column) (Column, bool)
+	// emit publishes a decoded value for a dual (two-program) comparison
+	emit func(v T)
 }
 
 var vPrefixLens = [3]int{0, 3, 8}
+
+// vMode selects what vBlockRoundTrip asserts about the column it is given:
+// 0 = C01 round trip, 1 = C07 truncation, 2 = C14 vectored path == buffered path.
+var vMode int
 
 // vBlockRoundTrip is the C01 oracle for one column:
 //  (a) encoding after m arbitrary bytes leaves them untouched and appends exactly the bytes produced for an empty buffer;
@@ -24,8 +34,15 @@ var vPrefixLens = [3]int{0, 3, 8}
 //  (c) inferred decode (Results.Auto) yields the same name, type and values;
 //  (d) block header as sent.
 func vBlockRoundTrip[T any](l vLeafSpec[T]) {
+	if vMode == 3 {
+		vCodecDual(l)
+		return
+	}
 	n := verifIntRange("rows", 0, verifParam("maxrows", 3))
-	m := vPrefixLens[verifChoice("prefix", 3)]
+	m := 0
+	if vMode == 0 {
+		m = vPrefixLens[verifChoice("prefix", 3)]
+	}
 	version := verifInt("version")
 	in := l.mk()
 	vals := make([]T, n)
@@ -47,6 +64,31 @@ func vBlockRoundTrip[T any](l vLeafSpec[T]) {
 	err = blk.EncodeBlock(&b0, version, input)
 	verifAssert(err == nil, "encode-again-ok")
 	verifAssert(vBytesEq(b.Buf[m:], b0.Buf), "bytes-independent-of-buffer")
+
+	switch vMode {
+	case 1:
+		vTruncated(l, b0.Buf, version)
+		return
+	case 2:
+		sink := &vSink{failAfter: -1}
+		w := NewWriter(sink, new(Buffer))
+		err = blk.WriteBlock(w, version, input)
+		verifAssert(err == nil, "writeblock-ok")
+		_, err = w.Flush()
+		verifAssert(err == nil, "writeblock-flush-ok")
+		verifAssert(vBytesEq(sink.got, b0.Buf), "writeblock==encodeblock")
+		// column level: WriteColumn vs EncodeColumn on the prepared column
+		var cb Buffer
+		in.EncodeColumn(&cb)
+		sink2 := &vSink{failAfter: -1}
+		w2 := NewWriter(sink2, new(Buffer))
+		in.WriteColumn(w2)
+		_, err = w2.Flush()
+		verifAssert(err == nil, "writecolumn-flush-ok")
+		verifAssert(vBytesEq(sink2.got, cb.Buf), "writecolumn==encodecolumn")
+		verifObserveBytes("wire", sink.got)
+		return
+	}
 
 	// (b) typed decode
 	out := l.mk()
@@ -94,7 +136,7 @@ func vBlockRoundTrip[T any](l vLeafSpec[T]) {
 func vSliceLeaf[T any, C ~[]T, PC interface {
 	*C
 	Column
-}](name string, inferable bool, gen func() T, eq func(a, b T) bool) {
+}](name string, inferable bool, gen func() T, eq func(a, b T) bool, emit func(v T)) {
 	// inferable=false: the column's own type string (bare "Enum8"/"Enum16") is not a
 	// server type, so there is nothing to infer it from.
 	auto := func(c Column) (Column, bool) { _, ok := c.(PC); return c, ok }
@@ -109,6 +151,7 @@ func vSliceLeaf[T any, C ~[]T, PC interface {
 		row:  func(c Column, i int) T { return (*(*C)(c.(PC)))[i] },
 		eq:   eq,
 		auto: auto,
+		emit: emit,
 	})
 }
 
@@ -116,4 +159,95 @@ func vSliceLeaf[T any, C ~[]T, PC interface {
 func VerifC01GenLeaves() {
 	k := verifChoice("type", len(vGenLeaves))
 	vGenLeaves[k].run()
+}
+
+func VerifC07GenLeaves()   { vMode = 1; VerifC01GenLeaves() }
+func VerifC07PlainLeaves() { vMode = 1; VerifC01PlainLeaves() }
+func VerifC07Composites()  { vMode = 1; VerifC01Composites() }
+func VerifC14GenLeaves()   { vMode = 2; VerifC01GenLeaves() }
+func VerifC14PlainLeaves() { vMode = 2; VerifC01PlainLeaves() }
+func VerifC14Composites()  { vMode = 2; VerifC01Composites() }
+
+// vTruncated: every proper prefix of an encoded block is rejected (C07).
+func vTruncated[T any](l vLeafSpec[T], wire []byte, version int) {
+	if len(wire) == 0 {
+		return
+	}
+	k := verifIntRange("cut", 0, len(wire)-1)
+	out := l.mk()
+	var d Block
+	err := d.DecodeBlock(NewReader(bytes.NewReader(wire[:k])), version, Results{{Name: "c", Data: out}})
+	verifAssert(err != nil, "typed-prefix-rejected")
+	if l.auto != nil {
+		var res Results
+		var d2 Block
+		err = d2.DecodeBlock(NewReader(bytes.NewReader(wire[:k])), version, res.Auto())
+		verifAssert(err != nil, "auto-prefix-rejected")
+	}
+	verifObserveU64("cut", uint64(k))
+}
+
+// vCodecDual is run in the default and in the purego program on the same symbolic
+// inputs (C15); everything it emits must be equal in both.
+func vCodecDual[T any](l vLeafSpec[T]) {
+	n := verifIntRange("rows", 0, verifParam("maxrows", 2))
+	fill := func(c Column) {
+		for i := 0; i < n; i++ {
+			l.app(c, l.gen())
+		}
+	}
+	switch verifChoice("op", 3) {
+	case 0: // EncodeColumn after m arbitrary bytes
+		m := vPrefixLens[verifChoice("prefix", 3)]
+		c := l.mk()
+		fill(c)
+		var b Buffer
+		b.Buf = append(b.Buf, verifBytes("pre", m)...)
+		c.EncodeColumn(&b)
+		verifEmitBytes("encoded", b.Buf)
+	case 1: // WriteColumn + Flush
+		c := l.mk()
+		fill(c)
+		sink := &vSink{failAfter: -1}
+		w := NewWriter(sink, new(Buffer))
+		w.ChainBuffer(func(b *Buffer) { b.PutRaw(verifBytes("pre", 1)) })
+		c.WriteColumn(w)
+		_, err := w.Flush()
+		verifEmitBool("flush-err", err != nil)
+		verifEmitBytes("written", sink.got)
+	case 2: // DecodeColumn of arbitrary bytes into a fresh or reset column
+		one := l.mk()
+		l.app(one, l.gen())
+		var eb Buffer
+		one.EncodeColumn(&eb)
+		esz := len(eb.Buf)
+		avail := n * esz
+		if n > 0 && verifChoice("short", 2) == 1 {
+			avail--
+		}
+		data := verifBytes("in", avail)
+		c := l.mk()
+		if verifChoice("reused", 2) == 1 {
+			l.app(c, l.gen())
+			c.Reset()
+		}
+		err := c.DecodeColumn(NewReader(bytes.NewReader(data)), n)
+		verifEmitBool("decode-err", err != nil)
+		if err == nil {
+			verifEmitU64("rows", uint64(c.Rows()))
+			for i := 0; i < c.Rows(); i++ {
+				l.emit(l.row(c, i))
+			}
+		}
+	}
+}
+
+func VerifC15GenLeaves() { vMode = 3; VerifC01GenLeaves() }
+func VerifC15BoolUUID() {
+	vMode = 3
+	if verifChoice("type", 2) == 0 {
+		vOfLeaf("Bool", true, func() ColumnOf[bool] { return new(ColBool) }, func() bool { return verifBool("v") }, func(a, b bool) bool { return a == b })
+	} else {
+		vOfLeaf("UUID", true, func() ColumnOf[uuid.UUID] { return new(ColUUID) }, vGenUUID, vEqUUID)
+	}
 }
